@@ -113,13 +113,15 @@ def upper_bound(tree, f=None, depth=0):
         if base in ("Eq", "Ne", "Lt", "Le", "Gt", "Ge"):
             return 1
         return tm
-    if k == "f" and tree[1][0] == "dc" and tree[1][2] == "Some" and tree[2] in ("0", 0):
-        return upper_bound(tree[1][1], f, depth + 1)       # the payload of an Option: bounded like the call that made it
+    if k == "f" and tree[1][0] == "dc" and tree[1][2] in ("Some", "Ok", "Continue") and tree[2] in ("0", 0):
+        return upper_bound(tree[1][1], f, depth + 1)       # the payload of an Option / Result: bounded like what made it
     if k == "call":
         short = tree[1].rsplit("::", 1)[-1]
         if tree[1].startswith("core::num::") and short in ("trailing_zeros", "leading_zeros", "count_ones", "count_zeros"):
             ty = tree[1].split("<")[1].split(">")[0] if "<" in tree[1] else None
             return INT_BITS.get(ty)
+        if short in ("branch", "ok_or_else", "ok_or", "ok", "map_err", "into", "from") and tree[2] and (tree[1].startswith(("core::option::", "core::result::", "core::ops::try_trait::", "core::convert::")) or "Try>::branch" in tree[1]):
+            return upper_bound(tree[2][0], f, depth + 1)    # wrappers that hand the payload on unchanged
         if short == "position" and "Iterator" in tree[1] and tree[2]:
             # index of an element of a slice iterator: below the slice's length when that is a constant
             for x in _walk(tree[2][0]):
